@@ -1,7 +1,7 @@
 #!/bin/bash
 # run every seeded change that has no result for the current tier yet (or all with --all); per property sequential, 5 properties in parallel
 cd /verif
-all=$1
+export all=$1
 run_prop() {
   p=$1
   for sd in seeded/$p-*; do
